@@ -190,6 +190,14 @@ def translate_expression(expr, env: Env) -> TExp:  # noqa: C901
                 values.append(e)
             return (Tuple[tuple(types)], values)  # type: ignore
 
+        if (
+            isinstance(expr.value, (int, float))
+            and not isinstance(expr.value, bool)
+            and expr.value < 0
+        ):
+            # Qint and Qfixed are unsigned; only a typed constant wraps explicitly
+            raise exceptions.ExpressionNotHandledException(expr)
+
         q_value = const_to_qtype(expr.value)
 
         if q_value:
